@@ -235,6 +235,12 @@ pub assume_specification<T, E, F: FnOnce(E) -> T>[ ::core::result::Result::<T, E
     requires r is Err ==> f.requires((r->Err_0,)),
     ensures r is Ok ==> o == r->Ok_0, r is Err ==> f.ensures((r->Err_0,), o),
 ;
+// R7: the remaining constants of core::f64::consts, by name: an uninterpreted value per name
+pub uninterp spec fn f64_consts_s(name: Seq<char>) -> f64;
+#[verifier::external_body] pub fn f64_const_named(name: &'static str) -> (r: f64) ensures r == f64_consts_s(name@) { unimplemented!() }
+// f64::clamp: an uninterpreted function of its three operands (A-F64-STD)
+pub uninterp spec fn f64_clamp_s(x: f64, lo: f64, hi: f64) -> f64;
+pub assume_specification [f64::clamp](x: f64, lo: f64, hi: f64) -> (r: f64) ensures r == f64_clamp_s(x, lo, hi);
 // R7: external f64 constants read through opaque functions (uninterpreted values)
 pub uninterp spec fn f64_named_const_s(name: int) -> f64;
 #[verifier::external_body] pub fn f64_const_epsilon() -> (r: f64) ensures r == f64_named_const_s(1) { f64::EPSILON }
